@@ -282,13 +282,21 @@ func (os *OutputStream) GetNext(ctx context.Context, lastseen robust.Id) []Messa
 	os.messagesMu.RUnlock()
 
 	// Wait until a new message appears.
+	waitID := uint64(current.Messages[0].Id.Id)
 	os.messagesMu.Lock()
 	for {
-		current, _ = os.getUnlocked(uint64(current.Messages[0].Id.Id))
-		next, ok := os.getUnlocked(current.NextID)
-		if ok {
+		if current, ok := os.getUnlocked(waitID); ok {
+			if next, ok := os.getUnlocked(current.NextID); ok {
+				os.messagesMu.Unlock()
+				return next.Messages
+			}
+		}
+		// The message we are waiting behind, or its successor, may have been
+		// deleted (compaction) since we looked: fall back to searching for
+		// anything newer than the message we are waiting behind.
+		if mb := os.firstAfterUnlocked(waitID); mb != nil {
 			os.messagesMu.Unlock()
-			return next.Messages
+			return mb.Messages
 		}
 		select {
 		case <-ctx.Done():
@@ -298,6 +306,25 @@ func (os *OutputStream) GetNext(ctx context.Context, lastseen robust.Id) []Messa
 		}
 		os.newMessage.Wait()
 	}
+}
+
+// firstAfterUnlocked returns the message batch with the smallest id greater
+// than |id|, or nil if there is none. messagesMu must be held.
+func (os *OutputStream) firstAfterUnlocked(id uint64) *messageBatch {
+	if id == math.MaxUint64 {
+		return nil
+	}
+	var key [8]byte
+	binary.BigEndian.PutUint64(key[:], id+1)
+	i := os.db.NewIterator(&util.Range{
+		Start: key[:],
+		Limit: nil,
+	}, nil)
+	defer i.Release()
+	if !i.First() {
+		return nil
+	}
+	return unmarshalMessageBatch(i.Value())
 }
 
 // InterruptGetNext interrupts any running GetNext() calls so that they return
